@@ -60,6 +60,8 @@ class FullEngine(Engine):
             return z3.BoolVal(bool(v.value))
         if isinstance(v, VPyTuple):
             return z3.BoolVal(len(v.items) > 0)
+        if isinstance(v, VOpaque) and not v.what.startswith("ext:"):
+            return T.fresh("opaque_truth", z3.BoolSort())       # a value we do not model (a counter, a message): either way
         if isinstance(v, VIter):
             raise Unsupported("truth value of an arbitrary iterable")
         if isinstance(v, VSet):
